@@ -12,6 +12,7 @@ import JxlModel.Driver.C04
 import JxlModel.Driver.C15
 import JxlModel.Driver.C05
 import JxlModel.Driver.C12
+import JxlModel.Driver.C08
 
 def main (args : List String) : IO UInt32 := do
   match args with
@@ -33,4 +34,6 @@ def main (args : List String) : IO UInt32 := do
   | ["c15"] => Jxl.Driver.C15.main; return 0
   | ["c05"] => Jxl.Driver.C05.main; return 0
   | ["c12"] => Jxl.Driver.C12.main; return 0
+  | ["c08"] => Jxl.Driver.C08.main; return 0
+  | ["c20"] => Jxl.Driver.C08.main; return 0
   | _ => IO.eprintln "usage: jxlmodel <component>"; return 2
